@@ -312,6 +312,42 @@ func (in *Interp) callFunc(fr *frame, fn *types.Func, recv Val, args []Val, c *a
 	if st, ok := recv.(*StreamV); ok {
 		return in.streamOp(fr, st, name, args, c)
 	}
+	// --- members of a symbolic composite: their own encode/size functions are separate obligations
+	if o, ok := recv.(*Obj); ok && o.Sym && !o.Opaque && in.symRoot != nil && o != in.symRoot {
+		switch name {
+		case "Size":
+			return in.atom("Size("+o.Path+")", 63, true)
+		case "Encode", "EncodeSW":
+			if len(args) == 1 {
+				if st, ok := args[0].(*StreamV); ok {
+					sz := in.atom("Size("+o.Path+")", 63, true)
+					st.T.add(in, Item{Kind: "child", W: in.mkBin("*", cI(8), sz, typInfo{64, true}), V: &Obj{Opaque: true, Path: o.Path}, Pos: c.Pos()})
+					return ErrV{}
+				}
+			}
+		case "Info":
+			return ErrV{}
+		}
+		res := fn.Type().(*types.Signature).Results()
+		if res.Len() == 0 {
+			return nil
+		}
+		if res.Len() == 1 && types.Implements(res.At(0).Type(), errorIface()) {
+			return ErrV{}
+		}
+		if res.Len() == 1 {
+			return Unknown{"method " + name + " of member " + o.Path}
+		}
+		var vs []Val
+		for i := 0; i < res.Len(); i++ {
+			if types.Implements(res.At(i).Type(), errorIface()) {
+				vs = append(vs, ErrV{})
+			} else {
+				vs = append(vs, Unknown{"method " + name + " of member " + o.Path})
+			}
+		}
+		return &TupleV{vs}
+	}
 	// --- dynamic dispatch on abstract objects
 	if o, ok := recv.(*Obj); ok {
 		if o.Opaque {
